@@ -1205,8 +1205,17 @@ class RawAlgorithmsMixIn:
 
         (xbar_data, ybar_data) = out
 
-        xbar_data += cls._dot(zbar_data, cls._transpose(y_data), out = xbar_data.copy())
-        ybar_data += cls._dot(cls._transpose(x_data), zbar_data, out = ybar_data.copy())
+        if x_data.ndim == 4 and y_data.ndim == 3:
+            # z = dot(matrix, vector):  xbar = outer(zbar, y)
+            xbar_data += cls._outer(zbar_data, y_data, out = xbar_data.copy())
+        else:
+            xbar_data += cls._dot(zbar_data, cls._transpose(y_data), out = xbar_data.copy())
+
+        if x_data.ndim == 3 and y_data.ndim == 4:
+            # z = dot(vector, matrix):  ybar = outer(x, zbar)
+            ybar_data += cls._outer(x_data, zbar_data, out = ybar_data.copy())
+        else:
+            ybar_data += cls._dot(cls._transpose(x_data), zbar_data, out = ybar_data.copy())
 
         return out
 
